@@ -137,7 +137,11 @@ def default_knobs(rng: Rng, profile: str) -> Dict[str, Any]:
     k["rank_offset"] = rng.choice([0, 0, 0, 3, 10, 100])
     k["causal"] = profile == "cp" or rng.chance(0.6)
     k["event_sync"] = rng.chance(0.3) if profile == "cp" else False
-    k["wide"] = False
+    k["wide_ops"] = 0
+    if profile == "callgraph":
+        k["wide_ops"] = rng.weighted([(0, 6), (130, 2), (300, 1)])
+        k["ops_per_step"] = rng.weighted([(1, 2), (2, 3), (4, 3), (8, 2), (16, 2), (32, 1)])
+    k["clone_ranks"] = k["ranks"] > 1 and rng.chance(0.35 if profile == "env" else 0.1)
     return k
 
 
@@ -164,6 +168,8 @@ class _RankGen:
         self.entries: List[Dict[str, Any]] = []
         self.last_launch_on_stream: Dict[int, int] = {}
         self.event_records: List[Tuple[int, int]] = []  # (corr id of cudaEventRecord, stream)
+        self.wide_done = False
+        self.jrng: Optional[Rng] = None
 
     # -- helpers -----------------------------------------------------------------------------
     def us(self, ticks: int) -> Any:
@@ -173,9 +179,13 @@ class _RankGen:
         q, r = divmod(ticks, 8)
         return q if r == 0 and self.rng_out.chance(0.5) else q + r / 8.0
 
+    def min_dur(self) -> int:
+        # fractional worlds: at least 2 us, so that a duration never rounds inward to zero or below
+        return 2 * self.unit if self.frac else 1
+
     def dur_ticks(self, lo_us: int, hi_us: int) -> int:
         d = self.rng.randint(lo_us * self.unit, hi_us * self.unit)
-        return max(d, self.unit if self.frac else 1)
+        return max(d, self.min_dur())
 
     def gap(self, zero_ok: bool = True) -> int:
         if zero_ok and self.rng.chance(self.k["tie_p"]):
@@ -207,6 +217,8 @@ class _RankGen:
         r = self.rng
         if self.k["causal"] or r.chance(0.8):
             earliest = launch_ts + r.randint(0, 8 * self.unit)
+            if self.jrng is not None:
+                earliest += self.jrng.randint(0, 20 * self.unit)
         else:
             earliest = max(0, launch_ts - r.randint(0, 5 * self.unit))
         start = max(earliest, self.free_at[stream] + (0 if r.chance(self.k["tie_p"]) else r.randint(1, 4 * self.unit)))
@@ -275,7 +287,7 @@ class _RankGen:
                 self.add_x("host", "cuda_runtime", "cudaStreamSynchronize", pid, tid, t, end - t,
                            {"External id": self.ext_id, "cbid": 131, "correlation": corr})
                 s_ts = min(t + r.randint(0, self.unit), end - 1) if end - t > 1 else t
-                self.emit_sync_activity("Stream Sync", s, s_ts, max(end - s_ts - r.randint(0, 1), 1 if not self.frac else self.unit), corr)
+                self.emit_sync_activity("Stream Sync", s, s_ts, max(end - s_ts - r.randint(0, 1), self.min_dur()), corr)
                 return end
             if kind == "device":
                 waited = max(self.free_at.values())
@@ -284,7 +296,7 @@ class _RankGen:
                 self.add_x("host", "cuda_runtime", "cudaDeviceSynchronize", pid, tid, t, end - t,
                            {"External id": self.ext_id, "cbid": 165, "correlation": corr})
                 s_ts = min(t + r.randint(0, self.unit), end - 1) if end - t > 1 else t
-                self.emit_sync_activity("Context Sync", -1, s_ts, max(end - s_ts - r.randint(0, 1), 1 if not self.frac else self.unit), corr)
+                self.emit_sync_activity("Context Sync", -1, s_ts, max(end - s_ts - r.randint(0, 1), self.min_dur()), corr)
                 return end
             if kind == "event_record":
                 s = r.choice(self.streams)
@@ -300,7 +312,7 @@ class _RankGen:
                 self.add_x("host", "cuda_runtime", "cudaEventSynchronize", pid, tid, t, end - t,
                            {"External id": self.ext_id, "cbid": 137, "correlation": corr})
                 s_ts = min(t + 1, end - 1) if end - t > 1 else t
-                self.emit_sync_activity("Event Sync", -1, s_ts, max(end - s_ts, 1 if not self.frac else self.unit), corr,
+                self.emit_sync_activity("Event Sync", -1, s_ts, max(end - s_ts, self.min_dur()), corr,
                                         {"wait_on_stream": s, "wait_on_cuda_event_record_corr_id": rec_corr,
                                          "wait_on_cuda_event_id": 9})
                 return end
@@ -311,7 +323,7 @@ class _RankGen:
                 d = self.dur_ticks(1, 4)
                 self.add_x("host", "cuda_runtime", "cudaStreamWaitEvent", pid, tid, t, d,
                            {"External id": self.ext_id, "cbid": 147, "correlation": corr})
-                self.emit_sync_activity("Stream Wait Event", dst, t + 1 if d > 1 else t, max(1 if not self.frac else self.unit, 1), corr,
+                self.emit_sync_activity("Stream Wait Event", dst, t + 1 if d > 1 else t, self.min_dur(), corr,
                                         {"wait_on_stream": s, "wait_on_cuda_event_record_corr_id": rec_corr,
                                          "wait_on_cuda_event_id": 1})
                 return t + d
@@ -328,7 +340,7 @@ class _RankGen:
                 self.emit_device_activity(which, t, t + d, corr)
                 self.flow(t, pid, tid, corr)
             return t + d
-        if x < k["memcpy_p"] + 0.2:
+        if x < k["memcpy_p"] + k.get("other_call_p", 0.2):
             # a runtime call that launches nothing (has a correlation id, no device partner)
             corr = self.next_corr()
             name = r.choice(OTHER_RUNTIME_CALLS)
@@ -373,9 +385,24 @@ class _RankGen:
             else:
                 cur = self.emit_op(pid, tid, cur, depth + 1, names, budget)
             cur += self.gap()
-        end = cur + self.gap()
-        if end <= t:
-            end = t + (self.unit if self.frac else 1)
+        end = max(cur + self.gap(), t + self.min_dur())
+        ev["_dur"] = end - t
+        return end
+
+    def emit_wide_op(self, pid: int, tid: int, t: int, n: int) -> int:
+        """One operator that launches n kernels directly (crosses the int8 width of num_kernels)."""
+        self.ext_id += 1
+        ev = self.add_x("host", "cpu_op", self.rng.choice(self.vocab["ops"]), pid, tid, t, 0,
+                        {"External id": self.ext_id})
+        cur = t + self.gap()
+        saved = (self.k["sync_p"], self.k["memcpy_p"], self.k["kernel_missing_p"])
+        self.k["sync_p"], self.k["memcpy_p"], self.k["kernel_missing_p"] = 0.0, 0.0, 0.0
+        try:
+            for _ in range(n):
+                cur = self.emit_leaf_runtime(pid, tid, cur) + self.gap()
+        finally:
+            self.k["sync_p"], self.k["memcpy_p"], self.k["kernel_missing_p"] = saved
+        end = max(cur + self.gap(), t + self.min_dur())
         ev["_dur"] = end - t
         return end
 
@@ -384,9 +411,7 @@ class _RankGen:
         ev = self.add_x("host", "user_annotation", name, pid, tid, t, 0,
                         {"External id": self.ext_id, "Ev Idx": self.ext_id} if self.rng.chance(0.7) else None)
         cur = body(t + self.gap())
-        end = cur + self.gap()
-        if end <= t:
-            end = t + (self.unit if self.frac else 1)
+        end = max(cur + self.gap(), t + self.min_dur())
         ev["_dur"] = end - t
         return end
 
@@ -431,6 +456,9 @@ class _RankGen:
                     else:
                         def sec_body(s: int) -> int:
                             c = s
+                            if k.get("wide_ops") and not self.wide_done:
+                                self.wide_done = True
+                                c = self.emit_wide_op(self.host_pid, main_tid, c, k["wide_ops"]) + self.gap()
                             for _ in range(max(1, n_ops // 2)):
                                 c = self.emit_op(self.host_pid, main_tid, c, 0, self.vocab["ops"], bud)
                                 c += self.gap()
@@ -508,7 +536,7 @@ class _RankGen:
             # a second thread that also carries profiler steps
             tid = main_tid + 3
             for si, (s0, e0) in enumerate(step_windows):
-                ev = self.add_x("host", "user_annotation", self.step_names[si], self.host_pid, tid, s0 + 1, max(e0 - s0 - 2, 1), None)
+                ev = self.add_x("host", "user_annotation", self.step_names[si], self.host_pid, tid, s0 + 1, max(e0 - s0 - 2, self.min_dur()), None)
                 _ = ev
 
         if k["orphan_kernels"]:
@@ -530,7 +558,7 @@ class _RankGen:
                 span_end = self.free_at[s]
                 if span_end > 10:
                     self.add_x("device", "gpu_user_annotation", "gpu_ann_" + r.choice(["fwd", "bwd", "step"]),
-                               self.dev, s, r.randint(0, span_end // 2), max(span_end // 3, 1),
+                               self.dev, s, r.randint(0, span_end // 2), max(span_end // 3, self.min_dur()),
                                {"External id": self.ext_id})
 
         trace_end = max([main_end] + list(self.free_at.values())) + 10 * self.unit
@@ -622,11 +650,21 @@ def gen_world(rng: Rng, profile: str = "loader", overrides: Optional[Dict[str, A
     step_names = [f"ProfilerStep#{knobs['step_base'] + i}" for i in range(knobs["steps"])]
     files = []
     pattern = FILE_NAME_PATTERNS[knobs["naming"]]
+    if knobs["ranks"] != 1:
+        knobs["no_rank_meta"] = False
     for pos in range(knobs["ranks"]):
         rank = pos + knobs["rank_offset"]
+        if knobs["no_rank_meta"]:
+            rank = 0  # a file that records no rank is loaded as rank 0
         rr = rng.fork(f"rank{pos}")
         vocab = _vocab_for_rank(rr.fork("v"), knobs, pos, base_vocab)
-        g = _RankGen(rr.fork("g"), knobs, pos, rank, vocab, step_names)
+        if knobs.get("clone_ranks"):
+            # every rank draws the same structure and durations; only launch delays differ
+            vocab = base_vocab
+            g = _RankGen(rng.fork("rank-shared"), knobs, pos, rank, vocab, step_names)
+            g.jrng = rr.fork("jitter")
+        else:
+            g = _RankGen(rr.fork("g"), knobs, pos, rank, vocab, step_names)
         entries = g.generate(rr.fork("out"))
         entries = _order_entries(rr.fork("order"), entries, knobs["order"])
         base = knobs["base_ts"]
